@@ -237,10 +237,10 @@ func c13GID() int64 {
 type c13GState int
 
 const (
-	gGone c13GState = iota
-	gParked
-	gBlocked
-	gBusy
+	c13Gone c13GState = iota
+	c13Parked
+	c13Blocked
+	c13Busy
 )
 
 var c13DumpBuf = make([]byte, 1<<20)
@@ -278,15 +278,15 @@ func c13Dump(ids map[int64]bool) (map[int64]c13GState, map[int64]string) {
 				status = status[:c]
 			}
 		}
-		st := gBusy
+		st := c13Busy
 		waitingOnSem := status == "sync.RWMutex.RLock" || status == "sync.RWMutex.Lock" || status == "sync.Mutex.Lock" || status == "semacquire"
 		switch {
 		case status == "chan receive" && strings.Contains(s, "(*c13Gated).Select"):
-			st = gParked
+			st = c13Parked
 		case waitingOnSem && !strings.Contains(s, "(*Metrics)") &&
 			((strings.Contains(s, "(*RWMutex).RLock") && strings.Contains(s, "(*RegProcessor).processBdReq")) ||
 				(strings.Contains(s, "(*RWMutex).Lock") && strings.Contains(s, "(*RegProcessor).ReloadSubnets"))):
-			st = gBlocked
+			st = c13Blocked
 		}
 		states[id] = st
 		texts[id] = s
@@ -427,7 +427,7 @@ func (sc *c13Scenario) settle() (map[int]c13GState, map[int]string, error) {
 				}
 				continue
 			}
-			if st == gBusy {
+			if st == c13Busy {
 				quiet = false
 			}
 			res[i] = st
@@ -475,7 +475,7 @@ func (sc *c13Scenario) enabled(states map[int]c13GState) []string {
 		}
 	}
 	for i := range sc.ths {
-		if states[i] == gParked {
+		if states[i] == c13Parked {
 			evs = append(evs, fmt.Sprintf("g%d", i))
 		}
 	}
@@ -495,7 +495,7 @@ func (sc *c13Scenario) apply(ev string, states map[int]c13GState) error {
 			sc.start(i)
 		}
 	case 'g':
-		if states[i] == gParked {
+		if states[i] == c13Parked {
 			sc.ths[i].gate.ch <- struct{}{}
 		}
 	default:
@@ -542,7 +542,7 @@ func c13Run(specs, events []string, drain bool) (*c13Result, error) {
 	for {
 		lowest := -1
 		for i := range sc.ths {
-			if states[i] == gParked {
+			if states[i] == c13Parked {
 				lowest = i
 				break
 			}
@@ -777,7 +777,7 @@ func c13Stress(t *testing.T, out *vlib.Out, r *vlib.Rand, nReq, nRounds, nReload
 			if w.done.Load() {
 				continue
 			}
-			if states[w.gid.Load()] != gBlocked {
+			if states[w.gid.Load()] != c13Blocked {
 				stuck = false
 				break
 			}
